@@ -7,7 +7,7 @@ import GMGModel.SmootherGiveCode
 import GMGModel.ExSmootherGiveCode
 import GMGModel.DirectGiveCode
 /-!
-# The whole cycle inside the model: the abstract operators of `Cycle.Ops` instantiated with the code-level models
+# The whole cycle inside the model: the abstract operators of `MGCycle.Ops` instantiated with the code-level models
 `Cycle.lean` / `Solve.lean` describe the control flow of the solver over ABSTRACT per-level operators.  Here those operators
 are the code-level models of the other modules, so that an instruction list of the IR becomes an executable computation on
 the vectors of a level hierarchy:
@@ -23,7 +23,7 @@ Vectors are row-major arrays per level (`x[i * nt + j]`); `none` is the outcome 
 `std::exit` branch / an out-of-bounds store of the assembly".
 -/
 namespace Concrete
-open Stencil Scalar Cycle
+open Stencil Scalar MGCycle
 variable {α : Type} [Scalar α]
 
 /-- one level: operator data and the circle/radial split of its grid -/
@@ -112,7 +112,7 @@ def cycleGive (G : GiveTables) (c : Cfg) (k : Kind) (extrapolated fgs : Bool) (m
   exec (opsGive H G) (cycleAt c k extrapolated fgs 0) m
 
 /-! ### strict memory for execution
-`Cycle.exec` threads a memory `Ref → V` (a function) through the instruction list — the right object for the theorems, but as
+`MGCycle.exec` threads a memory `Ref → V` (a function) through the instruction list — the right object for the theorems, but as
 compiled code every read would re-run the whole history.  `execL` is the same interpreter over an association list; the two
 agree on every cell (`C10c.execL_eq_exec`). -/
 
